@@ -216,6 +216,10 @@ Section StreamFile.
   Variable a : adoc.
   Variable x : xsstyle.
   Hypothesis Hos : s_ostms st = [].
+  (* the filter entries of the cross-reference stream dictionary and the encoded data (both empty / the raw data when
+     there is no filter) *)
+  Variable fent : dict.
+  Variable data : bytes.
 
   Definition xid : N := xs_id x.
   Definition numsS : list N := nums a ++ [xid].
@@ -240,10 +244,10 @@ Section StreamFile.
     [(bs "Type", OName (bs "XRef")); (RefWriter.K_Size, OInt (Z.of_N sizeS));
      (bs "W", OArr [OInt (Z.of_nat w0'); OInt (Z.of_nat w1'); OInt (Z.of_nat w2')])] ++
     idx_part ++ a_trailer a ++ fent ++ [(RefWriter.K_Length, OInt (Z.of_nat (length data)))].
-  Definition xd : dict := xd_of [] raw.
+  Definition xd : dict := xd_of fent data.
   Definition xobj_text (d : dict) (data : bytes) : bytes :=
     w_indirect xid 0 (OStream d data) (xs_istyle x) ++ gap_bytes (i_gap (xs_istyle x)).
-  Definition FS : bytes := hdr st a ++ body_of (otops st a) ++ xobj_text xd raw ++ startxref_text st (xpos st a).
+  Definition FS : bytes := hdr st a ++ body_of (otops st a) ++ xobj_text xd data ++ startxref_text st (xpos st a).
 
   (* the domain *)
   Hypothesis Hnd : NoDup numsS.
@@ -254,6 +258,7 @@ Section StreamFile.
   Hypothesis Hxd : spell_wf (ODict xd) (i_obj (xs_istyle x)) /\ (nest (ODict xd) <= MAX_DEPTH)%nat /\
                    dict_get (a_trailer a) K_Prev = None /\ dict_get (a_trailer a) K_Encrypt = None /\
                    dict_get (a_trailer a) K_Filter = None /\ dict_get (a_trailer a) Xref.K_Index = None.
+  Hypothesis Hfent : forall k, k <> K_Filter -> k <> K_DecodeParms -> dict_get fent k = None.
   Hypothesis Hsmall : xpos st a <= u32_max /\ sizeS <= u32_max /\ 25 < xpos st a.
   Hypothesis Hsx : (9 + length (sx_mid (s_sx_eol1 st) (s_sx_sp1 st) (xpos st a) (s_sx_sp2 st) (s_sx_eol2 st)) <= 25)%nat.
 
@@ -412,8 +417,7 @@ Section StreamFile.
   (* ---------- the dictionary of the cross-reference stream, as written and as read back ---------- *)
   Definition ysts := dict_sts (i_obj (xs_istyle x)).
   Definition dd : dict := denote_dict xd ysts.
-  Definition d1 : dict := dict_set dd K_Length (OInt (Z.of_nat (length raw))).
-  Definition t0S : dict := LoadProofsStream.sr3 d1.
+  Definition d1 : dict := dict_set dd K_Length (OInt (Z.of_nat (length data))).
   Definition x0S : xref := {| x_type := XTStream; x_entries := spec_map numbS; x_size := i64_as_u32 (Z.of_N sizeS) |}.
 
   Lemma xd_wf : dict_wf xd.
@@ -424,10 +428,10 @@ Section StreamFile.
 
   Lemma d1_wf : dict_wf d1. Proof. apply dict_set_wf, dd_wf. Qed.
 
-  Lemma xd_get_length : dict_get xd K_Length = Some (OInt (Z.of_nat (length raw))).
+  Lemma xd_get_length : dict_get xd K_Length = Some (OInt (Z.of_nat (length data))).
   Proof.
     apply (dict_get_In xd _ _ xd_wf). unfold xd, xd_of. apply in_or_app. right. apply in_or_app. right.
-    apply in_or_app. right. left. reflexivity.
+    apply in_or_app. right. apply in_or_app. right. left. reflexivity.
   Qed.
 
   Lemma xd_get_size : dict_get xd Xref.K_Size = Some (OInt (Z.of_N sizeS)). Proof. reflexivity. Qed.
@@ -453,14 +457,14 @@ Section StreamFile.
   (* a key that is none of Type Size W Index Length is looked up in the document's trailer *)
   Lemma xd_get_other k :
     bytes_eqb (bs "Type") k = false -> bytes_eqb RefWriter.K_Size k = false -> bytes_eqb (bs "W") k = false ->
-    bytes_eqb (bs "Index") k = false -> bytes_eqb RefWriter.K_Length k = false ->
+    bytes_eqb (bs "Index") k = false -> bytes_eqb RefWriter.K_Length k = false -> dict_get fent k = None ->
     dict_get xd k = dict_get (a_trailer a) k.
   Proof.
-    intros E1 E2 E3 E4 E5. unfold xd, xd_of. cbn [app dict_get]. rewrite E1, E2, E3.
+    intros E1 E2 E3 E4 E5 Hfk. unfold xd, xd_of. cbn [app dict_get]. rewrite E1, E2, E3.
     rewrite !dict_get_app.
     assert (Hi : dict_get idx_part k = None).
     { destruct idx_part_cases as [->|[-> _]]; [cbn [dict_get]; rewrite E4; reflexivity|reflexivity]. }
-    rewrite Hi. destruct (dict_get (a_trailer a) k); [reflexivity|]. cbn [dict_get]. rewrite E5. reflexivity.
+    rewrite Hi. destruct (dict_get (a_trailer a) k); [reflexivity|]. rewrite Hfk. cbn [dict_get]. rewrite E5. reflexivity.
   Qed.
 
   Lemma d1_get k : k <> K_Length -> dict_get d1 k = dict_get dd k.
@@ -471,75 +475,28 @@ Section StreamFile.
 
   (* ---------- the cross-reference section ---------- *)
   Lemma xobj_parse post :
-    indirect_object (xobj_text xd raw ++ post) None = IOk (xid, 0) (stream_new dd raw).
+    indirect_object (xobj_text xd data ++ post) None = IOk (xid, 0) (stream_new dd data).
   Proof.
     unfold xobj_text. rewrite <- app_assoc. destruct Hxd as [Hw [Hn _]].
     apply indirect_stream_any_spelling; [|unfold u16_max; lia|exact Hw|exact Hn|exact xd_get_length].
     destruct xid_pos as [_ Hm]. destruct Hsmall as [_ [Hs _]]. unfold sizeS in Hs. lia.
   Qed.
 
-  Lemma xobj_not_table post : xref_and_trailer_table (xobj_text xd raw ++ post) = XNoMatch.
+  Lemma xobj_not_table post : xref_and_trailer_table (xobj_text xd data ++ post) = XNoMatch.
   Proof.
     unfold xobj_text. rewrite <- app_assoc. destruct Hxd as [Hw _].
-    rewrite (w_indirect_stream_text xid 0 xd raw (xs_istyle x) _ Hw). unfold head_text. cbv zeta.
+    rewrite (w_indirect_stream_text xid 0 xd data (xs_istyle x) _ Hw). unfold head_text. cbv zeta.
     rewrite <- ?app_assoc. unfold xref_and_trailer_table. rewrite LoadProofsStream.xref_table_number. reflexivity.
   Qed.
 
-  Lemma decode_ok : decode_xref_plain d1 raw = XOk (x0S, t0S).
-  Proof.
-    assert (HS : dict_get d1 Xref.K_Size = Some (OInt (Z.of_N sizeS))).
-    { rewrite d1_get by discriminate. apply dict_get_denote. exact xd_get_size. }
-    assert (HW : dict_get d1 Xref.K_W = Some (OArr [OInt (Z.of_nat w0'); OInt (Z.of_nat w1'); OInt (Z.of_nat w2')])).
-    { rewrite d1_get by discriminate. apply dict_get_denote_arr; [exact xd_get_w|exact I]. }
-    unfold x0S, t0S, LoadProofsStream.sr3. rewrite <- numberedS_eq.
-    pose proof idx_part_cases as Hidx.
-    destruct Hidx as [Hi|[Hi Hsec]].
-    - apply xref_stream_any_W_Index; [exact widths_sum|exact xsecs_ok|exact HS|exact HW|].
-      rewrite d1_get by discriminate.
-      pose proof (index_array_ints xsecs) as Hp. destruct (index_array xsecs) as [| | | | | |l| | |] eqn:Ei; try contradiction.
-      apply dict_get_denote_arr; [|exact Hp].
-      apply (dict_get_In xd _ _ xd_wf). unfold xd, xd_of. rewrite Hi.
-      apply in_or_app. right. apply in_or_app. left. left. reflexivity.
-    - assert (Ex : xsecs = [(0, map entryS (range_N 0 (N.to_nat sizeS)))]).
-      { unfold xsecs, plain_secs. rewrite Hsec. reflexivity. }
-      assert (El : Z.of_nat (length (map entryS (range_N 0 (N.to_nat sizeS)))) = Z.of_N sizeS).
-      { rewrite map_length, range_N_length. apply N_nat_Z. }
-      pose proof xsecs_ok as Hok. unfold raw. rewrite Ex in *. inversion Hok as [|? ? Hs0 _]; subst.
-      rewrite <- El. rewrite <- El in HS.
-      apply xref_stream_default_Index; [exact widths_sum|exact Hs0|exact HS|exact HW|].
-      apply d1_none; [discriminate|].
-      unfold xd, xd_of. rewrite Hi. cbn [app].
-      rewrite !dict_get_cons_ne by reflexivity. rewrite dict_get_app.
-      replace (dict_get (a_trailer a) Xref.K_Index) with (@None obj) by (symmetry; apply Hxd). reflexivity.
-  Qed.
-
-  Lemma FS_split : FS = (hdr st a ++ body_of (otops st a)) ++ xobj_text xd raw ++ startxref_text st (xpos st a).
+  Lemma FS_split : FS = (hdr st a ++ body_of (otops st a)) ++ xobj_text xd data ++ startxref_text st (xpos st a).
   Proof. unfold FS. rewrite <- app_assoc. reflexivity. Qed.
 
   Lemma blen_front : blen (hdr st a ++ body_of (otops st a)) = xpos st a.
   Proof. unfold blen, xpos. rewrite app_length. reflexivity. Qed.
 
-  Lemma from_xpos : from (xpos st a) FS = xobj_text xd raw ++ startxref_text st (xpos st a).
+  Lemma from_xpos : from (xpos st a) FS = xobj_text xd data ++ startxref_text st (xpos st a).
   Proof. rewrite FS_split, <- blen_front. apply from_app. Qed.
-
-  Lemma xr_parseS : xref_and_trailer FS (xpos st a) = SOk (x0S, t0S).
-  Proof.
-    unfold xref_and_trailer. rewrite from_xpos, xobj_not_table, xobj_parse.
-    change (stream_new dd raw) with (OStream d1 raw). cbv iota.
-    assert (Hf : dict_has d1 K_Filter = false).
-    { unfold dict_has. rewrite d1_none; [reflexivity|discriminate|].
-      rewrite xd_get_other by reflexivity. apply Hxd. }
-    rewrite Hf, decode_ok. reflexivity.
-  Qed.
-
-  Lemma t0S_clean : dict_get t0S K_Prev = None /\ dict_has t0S K_Encrypt = false.
-  Proof.
-    unfold t0S, dict_has. rewrite !(LoadProofsStream.sr3_get d1 _ d1_wf).
-    change (bytes_eqb K_Prev Xref.K_Index || bytes_eqb K_Prev Xref.K_W || bytes_eqb K_Prev K_Length) with false.
-    change (bytes_eqb K_Encrypt Xref.K_Index || bytes_eqb K_Encrypt Xref.K_W || bytes_eqb K_Encrypt K_Length) with false.
-    cbv iota. rewrite !d1_none; [split; reflexivity| discriminate | | discriminate |];
-      rewrite xd_get_other by reflexivity; apply Hxd.
-  Qed.
 
   (* ---------- the entries ---------- *)
   Definition ES (n : N) : option xentry := entry_meaning (entryS n).
@@ -551,9 +508,9 @@ Section StreamFile.
     unfold numbS in K1. apply in_map_iff in K1 as [k [Ek _]]. inversion Ek; subst. exact K2.
   Qed.
 
-  Definition objfS (n g : N) : obj := if n =? xid then stream_new dd raw else objf st a n g.
+  Definition objfS (n g : N) : obj := if n =? xid then stream_new dd data else objf st a n g.
 
-  Lemma xobj_no_objstm : no_objstm (stream_new dd raw).
+  Lemma xobj_no_objstm : no_objstm (stream_new dd data).
   Proof.
     unfold stream_new, no_objstm, has_type. fold d1. rewrite d1_get by discriminate.
     unfold dd. rewrite (dict_get_denote_name xd ysts K_Type _ xd_get_type). reflexivity.
@@ -578,7 +535,7 @@ Section StreamFile.
       + subst off. unfold FS. rewrite Eo.
         replace (N.of_nat (length (hdr st a))) with (blen (hdr st a)) by reflexivity.
         rewrite from_at_offset.
-        destruct (indirect_top tp (body_of post ++ xobj_text xd raw ++ startxref_text st (xpos st a)) Hk Hi) as [P1 P2].
+        destruct (indirect_top tp (body_of post ++ xobj_text xd data ++ startxref_text st (xpos st a)) Hk Hi) as [P1 P2].
         rewrite <- Hn, <- Hg, (objf_top st a nd_nums tp Hin). rewrite P1. split; [|exact P2]. f_equal. clear. destruct tp as [[[? ?] ?] ?]. reflexivity.
     - unfold objfS. rewrite N.eqb_refl. split; [|split].
       + rewrite FS_split. unfold blen. rewrite app_length. pose proof blen_front as B. unfold blen in B. lia.
@@ -599,67 +556,156 @@ Section StreamFile.
     - destruct Hsmall as [_ [Hs _]]. unfold sizeS in Hs. lia.
   Qed.
 
-  (* ---------- the theorem ---------- *)
-  Theorem loads_stream :
-    exists d, load (s_junk st ++ FS) = LOk d XTStream /\
-      d_version d = a_version a /\ d_trailer d = t0S /\
-      (forall tp, In tp (tops st a) -> lookup (d_objects d) (fst (fst tp)) = Some (loaded_top tp)) /\
-      lookup (d_objects d) (xid, 0) = Some (stream_new dd raw) /\
-      (forall id o, lookup (d_objects d) id = Some o -> (exists tp, In tp (tops st a) /\ fst (fst tp) = id) \/ id = (xid, 0)).
+
+  (* ---------- what is independent of the loader: the frame facts and the objects read ---------- *)
+  Definition objsS : objmap := fold_left (ins objfS) (x_entries x0S) [].
+
+  Lemma objs_read : read_entries FS (x_entries x0S) [] = SOk objsS.
+  Proof. apply read_entries_all. exact entries_readS. Qed.
+
+  Lemma frame_facts :
+    pdf_offset (s_junk st ++ FS) = blen (s_junk st) /\ Loader.header FS = Some (a_version a) /\
+    get_xref_start FS = Some (blen (hdr st a ++ body_of (otops st a))).
   Proof.
-    set (objs := fold_left (ins objfS) (x_entries x0S) []).
-    assert (Hread : read_entries FS (x_entries x0S) [] = SOk objs) by (apply read_entries_all; exact entries_readS).
     assert (Hhdr : exists rest, FS = bs "%PDF-" ++ a_version a ++ eol_bytes (s_hdr_eol st) ++ rest).
     { unfold FS, hdr, RefWriter.header. rewrite <- !app_assoc. eexists. reflexivity. }
-    destruct Hhdr as [rest Er].
-    destruct t0S_clean as [Hp He]. destruct Hsmall as [Hx [Hs H25]].
-    eexists. split.
-    - apply (load_frame_at (s_junk st) FS (hdr st a ++ body_of (otops st a)) (a_version a) x0S t0S objs).
-      + rewrite Er. apply pdf_offset_junk. exact Hjunk.
-      + rewrite Er. apply header_any_eol; apply Hver.
-      + rewrite FS_split, blen_front, app_assoc, startxref_text_block.
-        apply get_xref_start_styled; [|unfold blen in *; rewrite !app_length in *; pose proof blen_front as B; unfold blen in B; rewrite app_length in B; lia
-                                      |unfold u32_max in Hx; lia|exact Hsx].
-        unfold blen. rewrite !app_length. pose proof blen_front as B. unfold blen in B. rewrite app_length in B. lia.
-      + pose proof xr_parseS as K. rewrite <- blen_front in K. exact K.
-      + exact Hp.
-      + exact He.
-      + exact max_id_smallS.
-      + exact Hread.
-    - cbn [d_version d_trailer d_objects]. split; [reflexivity|]. split.
-      { unfold dict_swap_remove, dict_has. rewrite Hp. reflexivity. }
-      assert (Hlk : forall id, lookup objs id = if hit ES (x_entries x0S) id then Some (objfS (fst id) (snd id)) else None).
-      { intro id. unfold objs. rewrite (lookup_fold_ins objfS ES _ [] id entries_funS). reflexivity. }
-      assert (Hkey : forall k off g, In k (keys_of secsS) -> entryS k = SInUse off g ->
-                      hit ES (x_entries x0S) (k, g) = true).
-      { intros k off g Hk Ee.
-        assert (Hxg : xget (x_entries x0S) k = Some (XNormal off g)).
-        { cbn [x_entries x0S]. rewrite (xget_spec_map numbS k (entryS k) numbS_keys_nodup).
-          - rewrite Ee. reflexivity.
-          - unfold numbS. apply in_map_iff. exists k. split; [reflexivity|exact Hk]. }
-        apply xget_In in Hxg. unfold hit. cbn [fst snd].
-        rewrite (xget_some_key _ _ _ Hxg). unfold ES. rewrite Ee. cbn [entry_meaning andb]. apply N.eqb_refl. }
-      split; [|split].
-      + intros tp Hin. apply otop_in in Hin. rewrite Hlk.
-        destruct (entryS_of_top tp Hin) as [off Ee]. destruct (otopS_ok tp Hin) as [_ [H1 H2]].
-        assert (Hk : In (top_num tp) (keys_of secsS)).
-        { apply keys_of_In. destruct secsS_good as [_ [Hc _]]. apply Hc; [unfold sizeS; lia|].
-          unfold usedS. rewrite Ee. reflexivity. }
-        replace (fst (fst tp)) with (top_num tp, snd (fst (fst tp))) by (destruct tp as [[[? ?] ?] ?]; reflexivity).
-        rewrite (Hkey _ _ _ Hk Ee). cbn [fst snd]. unfold objfS.
-        replace (top_num tp =? xid) with false.
-        2:{ symmetry. apply N.eqb_neq. intro K. apply xid_fresh. rewrite <- K, <- (tops_nums st a). apply in_map, otop_in, Hin. }
-        rewrite (objf_top st a nd_nums tp Hin). reflexivity.
-      + rewrite Hlk, (Hkey _ _ _ xid_key entryS_xid). cbn [fst snd]. unfold objfS. rewrite N.eqb_refl. reflexivity.
-      + intros id o Hl. rewrite Hlk in Hl. destruct (hit ES (x_entries x0S) id) eqn:Eh; [|discriminate Hl].
-        unfold hit in Eh. apply andb_true_iff in Eh as [Eh1 Eh2].
-        unfold ES in Eh2. destruct (entryS (fst id)) as [a0 b0|off g|c i] eqn:Ee; cbn [entry_meaning] in Eh2; try discriminate Eh2.
-        apply N.eqb_eq in Eh2.
-        destruct (entryS_inuse _ _ _ Ee) as [[pre [tp [post [Eo [Ek _]]]]]|[Ex [Eg _]]].
-        * left. exists tp. split; [apply otop_in; rewrite Eo; apply in_or_app; right; left; reflexivity|].
-          rewrite Ek. destruct id; cbn [fst snd] in *. subst. reflexivity.
-        * right. destruct id; cbn [fst snd] in *. subst. reflexivity.
+    destruct Hhdr as [rest Er]. destruct Hsmall as [Hx [Hs H25]].
+    split; [rewrite Er; apply pdf_offset_junk; exact Hjunk|].
+    split; [rewrite Er; apply header_any_eol; apply Hver|].
+    rewrite FS_split, blen_front, app_assoc, startxref_text_block.
+    apply get_xref_start_styled; [|unfold blen in *; rewrite !app_length in *; pose proof blen_front as B; unfold blen in B; rewrite app_length in B; lia
+                                  |unfold u32_max in Hx; lia|exact Hsx].
+    unfold blen. rewrite !app_length. pose proof blen_front as B. unfold blen in B. rewrite app_length in B. lia.
   Qed.
+
+  Lemma objs_lookup :
+    (forall tp, In tp (tops st a) -> lookup objsS (fst (fst tp)) = Some (loaded_top tp)) /\
+    lookup objsS (xid, 0) = Some (stream_new dd data) /\
+    (forall id o, lookup objsS id = Some o -> (exists tp, In tp (tops st a) /\ fst (fst tp) = id) \/ id = (xid, 0)).
+  Proof.
+    assert (Hlk : forall id, lookup objsS id = if hit ES (x_entries x0S) id then Some (objfS (fst id) (snd id)) else None).
+    { intro id. unfold objsS. rewrite (lookup_fold_ins objfS ES _ [] id entries_funS). reflexivity. }
+    assert (Hkey : forall k off g, In k (keys_of secsS) -> entryS k = SInUse off g ->
+                    hit ES (x_entries x0S) (k, g) = true).
+    { intros k off g Hk Ee.
+      assert (Hxg : xget (x_entries x0S) k = Some (XNormal off g)).
+      { cbn [x_entries x0S]. rewrite (xget_spec_map numbS k (entryS k) numbS_keys_nodup).
+        - rewrite Ee. reflexivity.
+        - unfold numbS. apply in_map_iff. exists k. split; [reflexivity|exact Hk]. }
+      apply xget_In in Hxg. unfold hit. cbn [fst snd].
+      rewrite (xget_some_key _ _ _ Hxg). unfold ES. rewrite Ee. cbn [entry_meaning andb]. apply N.eqb_refl. }
+    split; [|split].
+    + intros tp Hin. apply otop_in in Hin. rewrite Hlk.
+      destruct (entryS_of_top tp Hin) as [off Ee]. destruct (otopS_ok tp Hin) as [_ [H1 H2]].
+      assert (Hk : In (top_num tp) (keys_of secsS)).
+      { apply keys_of_In. destruct secsS_good as [_ [Hc _]]. apply Hc; [unfold sizeS; lia|].
+        unfold usedS. rewrite Ee. reflexivity. }
+      replace (fst (fst tp)) with (top_num tp, snd (fst (fst tp))) by (destruct tp as [[[? ?] ?] ?]; reflexivity).
+      rewrite (Hkey _ _ _ Hk Ee). cbn [fst snd]. unfold objfS.
+      replace (top_num tp =? xid) with false.
+      2:{ symmetry. apply N.eqb_neq. intro K. apply xid_fresh. rewrite <- K, <- (tops_nums st a). apply in_map, otop_in, Hin. }
+      rewrite (objf_top st a nd_nums tp Hin). reflexivity.
+    + rewrite Hlk, (Hkey _ _ _ xid_key entryS_xid). cbn [fst snd]. unfold objfS. rewrite N.eqb_refl. reflexivity.
+    + intros id o Hl. rewrite Hlk in Hl. destruct (hit ES (x_entries x0S) id) eqn:Eh; [|discriminate Hl].
+      unfold hit in Eh. apply andb_true_iff in Eh as [Eh1 Eh2].
+      unfold ES in Eh2. destruct (entryS (fst id)) as [a0 b0|off g|c i] eqn:Ee; cbn [entry_meaning] in Eh2; try discriminate Eh2.
+      apply N.eqb_eq in Eh2.
+      destruct (entryS_inuse _ _ _ Ee) as [[pre [tp [post [Eo [Ek _]]]]]|[Ex [Eg _]]].
+      * left. exists tp. split; [apply otop_in; rewrite Eo; apply in_or_app; right; left; reflexivity|].
+        rewrite Ek. destruct id; cbn [fst snd] in *. subst. reflexivity.
+      * right. destruct id; cbn [fst snd] in *. subst. reflexivity.
+  Qed.
+
+  (* the decoding of the section from the dictionary [dx] the decoder sees (d1 itself, or what Stream::decompress
+     leaves of it) and the raw data: needs Size, W, Index as written *)
+  Lemma decode_from (dx : dict) :
+    dict_get dx Xref.K_Size = Some (OInt (Z.of_N sizeS)) ->
+    dict_get dx Xref.K_W = Some (OArr [OInt (Z.of_nat w0'); OInt (Z.of_nat w1'); OInt (Z.of_nat w2')]) ->
+    dict_get dx Xref.K_Index = dict_get d1 Xref.K_Index ->
+    decode_xref_plain dx raw = XOk (x0S, LoadProofsStream.sr3 dx).
+  Proof.
+    intros HS HW HI.
+    unfold x0S, LoadProofsStream.sr3. rewrite <- numberedS_eq.
+    pose proof idx_part_cases as Hidx.
+    destruct Hidx as [Hi|[Hi Hsec]].
+    - apply xref_stream_any_W_Index; [exact widths_sum|exact xsecs_ok|exact HS|exact HW|].
+      rewrite HI. rewrite d1_get by discriminate.
+      pose proof (index_array_ints xsecs) as Hp. destruct (index_array xsecs) as [| | | | | |l| | |] eqn:Ei; try contradiction.
+      apply dict_get_denote_arr; [|exact Hp].
+      apply (dict_get_In xd _ _ xd_wf). unfold xd, xd_of. rewrite Hi.
+      apply in_or_app. right. apply in_or_app. left. left. reflexivity.
+    - assert (Ex : xsecs = [(0, map entryS (range_N 0 (N.to_nat sizeS)))]).
+      { unfold xsecs, plain_secs. rewrite Hsec. reflexivity. }
+      assert (El : Z.of_nat (length (map entryS (range_N 0 (N.to_nat sizeS)))) = Z.of_N sizeS).
+      { rewrite map_length, range_N_length. apply N_nat_Z. }
+      pose proof xsecs_ok as Hok. unfold raw. rewrite Ex in *. inversion Hok as [|? ? Hs0 _]; subst.
+      rewrite <- El. rewrite <- El in HS.
+      apply xref_stream_default_Index; [exact widths_sum|exact Hs0|exact HS|exact HW|].
+      rewrite HI. apply d1_none; [discriminate|].
+      unfold xd, xd_of. rewrite Hi. cbn [app].
+      rewrite !dict_get_cons_ne by reflexivity. rewrite !dict_get_app.
+      replace (dict_get (a_trailer a) Xref.K_Index) with (@None obj) by (symmetry; apply Hxd).
+      rewrite Hfent by discriminate. reflexivity.
+  Qed.
+
+  Lemma d1_size : dict_get d1 Xref.K_Size = Some (OInt (Z.of_N sizeS)).
+  Proof. rewrite d1_get by discriminate. apply dict_get_denote. exact xd_get_size. Qed.
+  Lemma d1_w : dict_get d1 Xref.K_W = Some (OArr [OInt (Z.of_nat w0'); OInt (Z.of_nat w1'); OInt (Z.of_nat w2')]).
+  Proof. rewrite d1_get by discriminate. apply dict_get_denote_arr; [exact xd_get_w|exact I]. Qed.
+
+  (* a key of the document's trailer domain that the trailer does not hold is absent from the stream dictionary *)
+  Lemma d1_absent k :
+    bytes_eqb (bs "Type") k = false -> bytes_eqb RefWriter.K_Size k = false -> bytes_eqb (bs "W") k = false ->
+    bytes_eqb (bs "Index") k = false -> bytes_eqb RefWriter.K_Length k = false ->
+    k <> K_Filter -> k <> K_DecodeParms -> dict_get (a_trailer a) k = None -> dict_get d1 k = None.
+  Proof.
+    intros E1 E2 E3 E4 E5 N1 N2 Ht. apply d1_none.
+    - intro K. subst k. rewrite bytes_eqb_refl in E5. discriminate E5.
+    - rewrite xd_get_other by (try assumption; apply Hfent; assumption). exact Ht.
+  Qed.
+
+  (* ======== ending A: no filter, Model/Loader.load ======== *)
+  Section Plain.
+    Hypothesis Hpf : fent = [].
+    Hypothesis Hpd : data = raw.
+    Definition t0S : dict := LoadProofsStream.sr3 d1.
+
+    Lemma xr_parseS : xref_and_trailer FS (xpos st a) = SOk (x0S, t0S).
+    Proof.
+      unfold xref_and_trailer. rewrite from_xpos, xobj_not_table, xobj_parse.
+      change (stream_new dd data) with (OStream d1 data). cbv iota.
+      assert (Hf : dict_has d1 K_Filter = false).
+      { unfold dict_has. rewrite d1_none; [reflexivity|discriminate|].
+        rewrite xd_get_other; [apply Hxd|reflexivity..|rewrite Hpf; reflexivity]. }
+      rewrite Hf, Hpd, (decode_from d1 d1_size d1_w eq_refl). reflexivity.
+    Qed.
+
+    Lemma t0S_clean : dict_get t0S K_Prev = None /\ dict_has t0S K_Encrypt = false.
+    Proof.
+      unfold t0S, dict_has. rewrite !(LoadProofsStream.sr3_get d1 _ d1_wf).
+      change (bytes_eqb K_Prev Xref.K_Index || bytes_eqb K_Prev Xref.K_W || bytes_eqb K_Prev K_Length) with false.
+      change (bytes_eqb K_Encrypt Xref.K_Index || bytes_eqb K_Encrypt Xref.K_W || bytes_eqb K_Encrypt K_Length) with false.
+      cbv iota. rewrite !d1_absent; try reflexivity; try discriminate; try apply Hxd. split; reflexivity.
+    Qed.
+
+    Theorem loads_stream :
+      exists d, load (s_junk st ++ FS) = LOk d XTStream /\
+        d_version d = a_version a /\ d_trailer d = t0S /\
+        (forall tp, In tp (tops st a) -> lookup (d_objects d) (fst (fst tp)) = Some (loaded_top tp)) /\
+        lookup (d_objects d) (xid, 0) = Some (stream_new dd data) /\
+        (forall id o, lookup (d_objects d) id = Some o -> (exists tp, In tp (tops st a) /\ fst (fst tp) = id) \/ id = (xid, 0)).
+    Proof.
+      destruct frame_facts as [F1 [F2 F3]]. destruct t0S_clean as [Hp He].
+      eexists. split.
+      - apply (load_frame_at (s_junk st) FS (hdr st a ++ body_of (otops st a)) (a_version a) x0S t0S objsS); try assumption.
+        + rewrite blen_front. exact xr_parseS.
+        + exact max_id_smallS.
+        + exact objs_read.
+      - cbn [d_version d_trailer d_objects]. split; [reflexivity|]. split.
+        { unfold dict_swap_remove, dict_has. rewrite Hp. reflexivity. }
+        exact objs_lookup.
+    Qed.
+  End Plain.
 End StreamFile.
 
 (* ======================================================================================================
@@ -667,7 +713,7 @@ End StreamFile.
    ====================================================================================================== *)
 Theorem ref_write_stream st a x file :
   s_xref st = XStream x -> s_ostms st = [] -> xs_filter x = SfNone -> ref_write st a = Some file ->
-  file = s_junk st ++ FS st a x /\ NoDup (numsS a x) /\ ~ In 0 (numsS a x) /\
+  file = s_junk st ++ FS st a x [] (raw st a x) /\ NoDup (numsS a x) /\ ~ In 0 (numsS a x) /\
   contains (bs "%PDF-") (s_junk st) = false /\ no_eolb (a_version a) = true.
 Proof.
   intros Hxs Hos Hf H. unfold ref_write in H. unfold compressed_nums in H. rewrite Hos, Hxs in H.
@@ -693,34 +739,37 @@ Proof.
     + split; [exact C1a|]. apply version_no_eol; assumption.
 Qed.
 
+(* the dictionary of an unfiltered cross-reference stream *)
+Definition xdp st a x : dict := xd st a x [] (raw st a x).
+
 Theorem loads_stream_file st a x file :
   s_xref st = XStream x -> s_ostms st = [] -> xs_filter x = SfNone -> ref_write st a = Some file ->
   Forall top_ok (tops st a) -> utf8_decode (a_version a) <> None ->
-  (spell_wf (ODict (xd st a x)) (i_obj (xs_istyle x)) /\ (nest (ODict (xd st a x)) <= MAX_DEPTH)%nat /\
+  (spell_wf (ODict (xdp st a x)) (i_obj (xs_istyle x)) /\ (nest (ODict (xdp st a x)) <= MAX_DEPTH)%nat /\
    dict_get (a_trailer a) K_Prev = None /\ dict_get (a_trailer a) K_Encrypt = None /\
    dict_get (a_trailer a) K_Filter = None /\ dict_get (a_trailer a) Xref.K_Index = None) ->
   (xpos st a <= u32_max /\ sizeS a x <= u32_max /\ 25 < xpos st a) ->
   (9 + length (sx_mid (s_sx_eol1 st) (s_sx_sp1 st) (xpos st a) (s_sx_sp2 st) (s_sx_eol2 st)) <= 25)%nat ->
   exists d, load file = LOk d XTStream /\
-    d_version d = a_version a /\ d_trailer d = t0S st a x /\
+    d_version d = a_version a /\ d_trailer d = t0S st a x [] (raw st a x) /\
     (forall tp, In tp (tops st a) -> lookup (d_objects d) (fst (fst tp)) = Some (loaded_top tp)) /\
-    lookup (d_objects d) (xid x, 0) = Some (stream_new (dd st a x) (raw st a x)) /\
+    lookup (d_objects d) (xid x, 0) = Some (stream_new (dd st a x [] (raw st a x)) (raw st a x)) /\
     (forall id o, lookup (d_objects d) id = Some o -> (exists tp, In tp (tops st a) /\ fst (fst tp) = id) \/ id = (xid x, 0)).
 Proof.
   intros Hxs Hos Hf Hw Htops Hu Hxd Hsmall Hsx.
   destruct (ref_write_stream st a x file Hxs Hos Hf Hw) as [-> [Hnd [H0 [Hj Hv]]]].
-  apply loads_stream; try assumption. split; assumption.
+  apply loads_stream; try assumption; try reflexivity. split; assumption.
 Qed.
 
 (* what the loaded trailer holds: the dictionary of the cross-reference stream as read back, without Length, W, Index *)
 Theorem stream_trailer_reading st a x k :
-  spell_wf (ODict (xd st a x)) (i_obj (xs_istyle x)) ->
-  dict_get (t0S st a x) k =
+  spell_wf (ODict (xdp st a x)) (i_obj (xs_istyle x)) ->
+  dict_get (t0S st a x [] (raw st a x)) k =
   if bytes_eqb k Xref.K_Index || bytes_eqb k Xref.K_W || bytes_eqb k Obj.K_Length then None
-  else dict_get (denote_dict (xd st a x) (dict_sts (i_obj (xs_istyle x)))) k.
+  else dict_get (denote_dict (xdp st a x) (dict_sts (i_obj (xs_istyle x)))) k.
 Proof.
-  intro Hw. assert (W : dict_wf (xd st a x)) by (apply spell_wf_dict in Hw; exact (proj1 Hw)).
-  assert (W1 : dict_wf (d1 st a x)).
+  intro Hw. assert (W : dict_wf (xdp st a x)) by (apply spell_wf_dict in Hw; exact (proj1 Hw)).
+  assert (W1 : dict_wf (d1 st a x [] (raw st a x))).
   { apply dict_set_wf. unfold dict_wf, keys, dd. rewrite denote_dict_keys. exact W. }
   unfold t0S. rewrite (LoadProofsStream.sr3_get _ k W1).
   destruct (bytes_eqb k Xref.K_Index || bytes_eqb k Xref.K_W || bytes_eqb k Obj.K_Length) eqn:E; [reflexivity|].
